@@ -31,12 +31,28 @@ pub trait Clock: Send + Sync + 'static {
 }
 
 impl Clock for RealTimeClock {
+    #[cfg(not(feature = "verif-hooks"))]
     fn now() -> u32 {
         RealTimeClock::now()
             .duration_since(RealTimeClock::UNIX_EPOCH)
             .unwrap()
             .as_secs() as u32
     }
+
+    /// Verification hook: the same clock, plus a per-thread offset a test harness can advance.
+    #[cfg(feature = "verif-hooks")]
+    fn now() -> u32 {
+        (RealTimeClock::now()
+            .duration_since(RealTimeClock::UNIX_EPOCH)
+            .unwrap()
+            .as_secs() as u32)
+            .wrapping_add(VERIF_CLOCK_SHIFT.with(|s| s.get()))
+    }
+}
+
+#[cfg(feature = "verif-hooks")]
+thread_local! {
+    pub static VERIF_CLOCK_SHIFT: std::cell::Cell<u32> = const { std::cell::Cell::new(0) };
 }
 
 pub struct GenericTokenBucket(TokenCount);
